@@ -10,6 +10,7 @@ import (
 	"os"
 	"path/filepath"
 	"strconv"
+	"sync"
 	"syscall"
 
 	"github.com/markusressel/fan2go/internal/util"
@@ -21,6 +22,7 @@ type Op struct {
 	Value int   // value written / value returned by a read
 	Err   error // error returned to fan2go
 	Note  string
+	At    int64 // Clock() when logged
 }
 
 func (o Op) String() string {
@@ -52,6 +54,14 @@ type FS struct {
 	Intercept func(kind, path string, value int) *Result
 	KeepLog   bool
 	NOps      int
+	// Mirror writes every stored value through to the real file as well, so that the final device
+	// state survives the death of the process (process-per-execution harnesses).
+	Mirror bool
+	// Locked serialises Handle with a mutex (several fan2go goroutines use the FS concurrently).
+	Locked bool
+	mu     sync.Mutex
+	// Clock, when set, stamps log entries (virtual time inside a bubble).
+	Clock func() int64
 }
 
 type Result struct {
@@ -89,12 +99,23 @@ func New() *FS {
 
 var all []*FS
 
+// NewAt is New with a caller-chosen root directory (created if missing, not removed by Close).
+func NewAt(dir string) *FS {
+	if err := os.MkdirAll(dir, 0755); err != nil {
+		panic(err)
+	}
+	fs := &FS{Dir: dir, Files: map[string]*File{}, KeepLog: true}
+	all = append(all, fs)
+	util.VerifFileOp = dispatch
+	return fs
+}
+
 // dispatch routes an operation to the FS instance that owns the path (several instances may
 // coexist, e.g. one for the search and one for from-scratch replays).
 func dispatch(kind, path string, value int) (bool, int, error) {
 	for _, fs := range all {
-		if _, ok := fs.Files[path]; ok {
-			return fs.Handle(kind, path, value)
+		if h, v, err := fs.Handle(kind, path, value); h {
+			return h, v, err
 		}
 	}
 	return false, 0, nil
@@ -130,6 +151,7 @@ func (fs *FS) Add(name string, val int) string {
 		}
 	}
 	fs.Files[p] = &File{Val: val}
+	fs.mirror(p, val)
 	return p
 }
 
@@ -145,18 +167,36 @@ func (fs *FS) F(path string) *File { return fs.Files[path] }
 func (fs *FS) Val(path string) int { return fs.Files[path].Val }
 
 func (fs *FS) Handle(kind, path string, value int) (bool, int, error) {
-	f, ok := fs.Files[path]
+	if fs.Locked {
+		fs.mu.Lock()
+	}
+	_, ok := fs.Files[path]
 	if !ok {
+		if fs.Locked {
+			fs.mu.Unlock()
+		}
 		return false, 0, nil // not ours: real file system
 	}
 	fs.NOps++
-	if fs.Intercept != nil {
-		if r := fs.Intercept(kind, path, value); r != nil {
+	ic := fs.Intercept
+	if fs.Locked {
+		fs.mu.Unlock() // the interceptor may yield to other goroutines (signal delivery); never call it with the lock held
+	}
+	if ic != nil {
+		if r := ic(kind, path, value); r != nil {
+			if fs.Locked {
+				fs.mu.Lock()
+				defer fs.mu.Unlock()
+			}
 			fs.log(Op{Kind: kind, Path: path, Value: pick(kind, value, r.Val), Err: r.Err, Note: " [injected]"})
 			return true, r.Val, r.Err
 		}
-		f = fs.Files[path]
 	}
+	if fs.Locked {
+		fs.mu.Lock()
+		defer fs.mu.Unlock()
+	}
+	f := fs.Files[path]
 	if kind == "read" {
 		switch {
 		case f.Missing:
@@ -194,6 +234,7 @@ func (fs *FS) Handle(kind, path string, value int) (bool, int, error) {
 		nv, store, err := f.OnWrite(value)
 		if store {
 			f.Val = nv
+			fs.mirror(path, nv)
 		}
 		note := ""
 		if !store && err == nil {
@@ -203,8 +244,21 @@ func (fs *FS) Handle(kind, path string, value int) (bool, int, error) {
 		return true, 0, err
 	}
 	f.Val = value
+	fs.mirror(path, value)
 	fs.log(Op{Kind: kind, Path: path, Value: value})
 	return true, 0, nil
+}
+
+func (fs *FS) mirror(path string, v int) {
+	if fs.Mirror {
+		_ = os.WriteFile(path, []byte(strconv.Itoa(v)), 0644)
+	}
+}
+
+// Set stores a value from the environment side (third party / device), mirrored when enabled.
+func (fs *FS) Set(path string, v int) {
+	fs.Files[path].Val = v
+	fs.mirror(path, v)
 }
 
 func pick(kind string, written, read int) int {
@@ -215,6 +269,9 @@ func pick(kind string, written, read int) int {
 }
 
 func (fs *FS) log(o Op) {
+	if fs.Clock != nil {
+		o.At = fs.Clock()
+	}
 	if fs.KeepLog {
 		fs.Log = append(fs.Log, o)
 	}
